@@ -792,13 +792,13 @@ def BVSRem(left: FNode, right: FNode) -> FNode:
 
 
 def BVComp(left: FNode, right: FNode) -> FNode:
-    """Returns a BV of size 1 equal to 0 if left is equal to right,
-        otherwise equal to 1.
+    """Returns a BV of size 1 equal to 1 if left is equal to right,
+        otherwise equal to 0.
 
     :param left: Specify the left bitvector
     :param right: Specify the right bitvector
-    :returns: A BV of size 1 equal to 0 if left is equal to right,
-              otherwise 1
+    :returns: A BV of size 1 equal to 1 if left is equal to right,
+              otherwise 0
     :rtype: FNode
     """
     return get_env().formula_manager.BVComp(left, right)
